@@ -46,6 +46,8 @@ use tokio::io::{AsyncRead, AsyncWrite, ReadBuf};
 const TICK: Duration = Duration::from_secs(10);
 const INBOUND_BASE: usize = 1_000_000;
 const HEADER: usize = 13;
+/// publisher code of bytes that are not a peer id
+const PUB_INVALID: u64 = 255;
 
 // ------------------------------------------------------------------ carrier
 
@@ -126,7 +128,9 @@ fn varint_unframe(data: &[u8]) -> Option<&[u8]> {
 #[derive(Clone, Debug)]
 enum Ev {
     PutValue { from: u64, key: u64, val: u64, len: u64, publ: u64, ttl: u64 },
-    AddProvider { from: u64, key: u64, provs: Vec<(u64, u64)> }, // (peer, addresses); distances are looked up
+    /// (peer, addresses, validity): validity 1 = decodes, 0 = peer id bytes that are no peer id,
+    /// 2 = unknown connection type; distances are looked up
+    AddProvider { from: u64, key: u64, provs: Vec<(u64, u64, u64)> },
     GetValue { from: u64, key: u64 },
     GetProviders { from: u64, key: u64 },
     CmdPutRecord { key: u64, val: u64, len: u64, exp: u64 },
@@ -159,14 +163,15 @@ fn decode_events(c: &[u64]) -> Option<Vec<Ev>> {
                 let (from, key, n) = (a(1)?, a(2)?, a(3)? as usize);
                 let mut provs = Vec::new();
                 for j in 0..n {
-                    let p = a(4 + 3 * j)?;
-                    let na = a(6 + 3 * j)?;
-                    if !peer_ok(p) || na > 80 {
+                    let p = a(4 + 4 * j)?;
+                    let na = a(6 + 4 * j)?;
+                    let valid = a(7 + 4 * j)?;
+                    if !peer_ok(p) || na > 80 || valid > 2 {
                         return None;
                     }
-                    provs.push((p, na));
+                    provs.push((p, na, valid));
                 }
-                i += 4 + 3 * n;
+                i += 4 + 4 * n;
                 Ev::AddProvider { from, key, provs }
             }
             2 => {
@@ -218,7 +223,7 @@ fn decode_events(c: &[u64]) -> Option<Vec<Ev>> {
         };
         let ok = match &ev {
             Ev::PutValue { from, key, val, len, publ, ttl } =>
-                peer_ok(*from) && key_ok(*key) && *val < 256 && *len < 1 << 16 && *publ <= NPROVS as u64 + 1 && *ttl < 1000,
+                peer_ok(*from) && key_ok(*key) && *val < 256 && *len < 1 << 16 && (*publ <= NPROVS as u64 + 1 || *publ == PUB_INVALID) && *ttl < 1000,
             Ev::AddProvider { from, key, .. } => peer_ok(*from) && key_ok(*key),
             Ev::GetValue { from, key } | Ev::GetProviders { from, key } => peer_ok(*from) && key_ok(*key),
             Ev::CmdPutRecord { key, val, len, exp } => key_ok(*key) && *val < 256 && *len < 1 << 16 && *exp < 100_000,
@@ -431,7 +436,11 @@ impl<'a> Sys<'a> {
                         key: kb.clone(),
                         value: vec![*val as u8; *len as usize],
                         time_received: String::new(),
-                        publisher: publisher_of(w, *publ).map(|p| p.to_bytes()).unwrap_or_default(),
+                        publisher: if *publ == PUB_INVALID {
+                            vec![1, 2, 3]
+                        } else {
+                            publisher_of(w, *publ).map(|p| p.to_bytes()).unwrap_or_default()
+                        },
                         ttl: (*ttl * 10) as u32,
                     }),
                     closer_peers: vec![],
@@ -453,10 +462,18 @@ impl<'a> Sys<'a> {
                     closer_peers: vec![],
                     provider_peers: provs
                         .iter()
-                        .map(|(p, na)| SchemaPeer {
-                            id: w.peers[*p as usize].to_bytes(),
-                            addrs: w.addrs.iter().take(*na as usize).map(|a| a.to_vec()).collect(),
-                            connection: 1,
+                        .map(|(p, na, valid)| {
+                            let mut addrs: Vec<Vec<u8>> = w.addrs.iter().take(*na as usize).map(|a| a.to_vec()).collect();
+                            if na % 2 == 1 {
+                                // a duplicate and bytes that are no multiaddr: neither counts
+                                addrs.insert(0, addrs[addrs.len() - 1].clone());
+                                addrs.insert(1, vec![255, 1]);
+                            }
+                            SchemaPeer {
+                                id: if *valid == 0 { vec![9, 9, 9] } else { w.peers[*p as usize].to_bytes() },
+                                addrs,
+                                connection: if *valid == 2 { 77 } else { 1 },
+                            }
                         })
                         .collect(),
                 };
@@ -661,8 +678,8 @@ fn encode_event(w: &World, e: &Ev, order: &[(u64, u64)], c: &mut Vec<u64>) {
         Ev::PutValue { from, key, val, len, publ, ttl } => c.extend([0, *from, *key, *val, *len, *publ, *ttl]),
         Ev::AddProvider { from, key, provs } => {
             c.extend([1, *from, *key, provs.len() as u64]);
-            for (p, na) in provs {
-                c.extend([*p, w.rank[*key as usize][*p as usize], *na]);
+            for (p, na, valid) in provs {
+                c.extend([*p, w.rank[*key as usize][*p as usize], *na, *valid]);
             }
         }
         Ev::GetValue { from, key } => c.extend([2, *from, *key]),
@@ -742,7 +759,8 @@ pub fn gen_case(rng: &mut Rng, w: &World, thorough: bool) -> Vec<u64> {
         let from = rng.range(1, nprovs - 1);
         let len = rng.pick(&[0u64, 1, 3, 4, 5, 6, 7]);
         let val = if len == 0 { 0 } else { rng.below(200) };
-        let publ = rng.pick(&[0u64, 0, 1, 2, 3, NPROVS as u64 + 1]);
+        let publ = rng.pick(&[0u64, 0, 1, 2, 3, NPROVS as u64 + 1, PUB_INVALID]);
+        let cpubl = if publ == PUB_INVALID { 0 } else { publ };
         let exp = match rng.below(8) {
             0 | 1 => 0,
             2 => 1 + vnow.saturating_sub(1),
@@ -756,20 +774,24 @@ pub fn gen_case(rng: &mut Rng, w: &World, thorough: bool) -> Vec<u64> {
             15..=32 => {
                 let other = rng.below(nprovs);
                 let na = rng.pick(&[0u64, 1, 2, 3, 31, 32, 33, 40, 70]);
-                let provs = match rng.below(10) {
+                let bad = rng.pick(&[0u64, 2]);
+                let provs = match rng.below(14) {
                     0 => vec![],
-                    1 => vec![(other, na)],
-                    2 => vec![(from, na), (other, 1)],
-                    3 => vec![(other, 1), (from, na)],
-                    _ => vec![(from, na)],
+                    1 => vec![(other, na, 1)],
+                    2 => vec![(from, na, 1), (other, 1, 1)],
+                    3 => vec![(other, 1, 1), (from, na, 1)],
+                    4 => vec![(other, 1, bad), (from, na, 1)],
+                    5 => vec![(from, na, 1), (other, 1, bad)],
+                    6 => vec![(from, na, bad)],
+                    _ => vec![(from, na, 1)],
                 };
                 Ev::AddProvider { from, key, provs }
             }
             33..=42 => Ev::GetValue { from, key },
             43..=52 => Ev::GetProviders { from, key },
             53..=58 => Ev::CmdPutRecord { key, val, len, exp },
-            59..=62 => Ev::CmdPutToPeers { key, val, len, publ, exp, upd: rng.below(2) },
-            63..=68 => Ev::CmdStoreRecord { key, val, len, publ, exp },
+            59..=62 => Ev::CmdPutToPeers { key, val, len, publ: cpubl, exp, upd: rng.below(2) },
+            63..=68 => Ev::CmdStoreRecord { key, val, len, publ: cpubl, exp },
             69..=76 => Ev::CmdStartProviding { key, q: rng.pick(&[0u64, 1, 2, 3, 21]) },
             77..=79 => Ev::CmdStopProviding { key },
             80..=84 => Ev::CmdGetRecord { key },
